@@ -21,4 +21,6 @@ func simState(_, _ *[consts.HashTrinarySize]uint, _ uint64) {}
 
 func simDigest(trinary.Trits, uint64) {}
 
+func simInput([]trinary.Trits, uint64) {}
+
 func simWorkerID(*Worker, uint64) int { return 0 }
